@@ -230,6 +230,11 @@ impl Server {
         (now - self.time_base).as_millis() as u64
     }
 
+    // The active list is only pruned once per step(), so count the entries that are still active
+    fn active_connection_count(&self) -> usize {
+        self.active_clients.iter().filter(|client| client.borrow().is_active()).count()
+    }
+
     fn handle_handshake_syn(
         &mut self,
         client_addr: net::SocketAddr,
@@ -258,7 +263,7 @@ impl Server {
         }
 
         if self.clients.len() >= self.config.max_total_connections
-            && self.active_clients.len() >= self.config.max_active_connections
+            || self.active_connection_count() >= self.config.max_active_connections
         {
             // No room in the inn
             let reply = frame::Frame::HandshakeErrorFrame(frame::HandshakeErrorFrame {
@@ -370,6 +375,26 @@ impl Server {
             match client.state {
                 remote_client::State::Pending(ref state) => {
                     if handshake.nonce_ack == state.local_nonce {
+                        // Several handshakes may have been admitted while there was room for only
+                        // some of them: the limit is enforced again at the point of activation
+                        if self.active_connection_count() >= self.config.max_active_connections {
+                            let reply = frame::Frame::HandshakeErrorFrame(frame::HandshakeErrorFrame {
+                                nonce_ack: state.remote_nonce,
+                                error: frame::HandshakeErrorType::ServerFull,
+                            });
+                            let _ = self.socket.send_to(&reply.write(), client_addr);
+
+                            if self.config.enable_handshake_errors {
+                                self.events_out.push(Event::Error(client_addr, ErrorType::ServerFull));
+                            }
+
+                            client.state = remote_client::State::Fin;
+                            std::mem::drop(client);
+                            self.clients.remove(&client_addr);
+
+                            return;
+                        }
+
                         use crate::packet_id;
 
                         let config = half_connection::Config {
